@@ -1,57 +1,23 @@
-# Per-property configuration shared by ./check and the MANIFEST generator.
-# coq:      property file under coq/theories/Properties (statements + Print Assumptions only)
-# harness:  pvh sub-command (implementation vs extracted model vs direct predicate)
-# gen:      regenerated inventories (tools/extract_facts.py targets) the proof depends on
+# Per-property configuration shared by ./check and the MANIFEST generator: one JSON file per claimed
+# property under lib/props.d/.  Fields:
+#   coq          property file under coq/theories/Properties (statements + Print Assumptions only)
+#   harness      pvh sub-command (implementation vs extracted model vs direct predicate), or
+#   harness_cmd  argv list of any other report-producing command; placeholders {tier} {seed} {out} {model} {root}
+#   gen          regenerated inventories (tools/extract_facts.py targets) the proof depends on
+#   kernel_import  module cases.v imports (default PV.KernelCases)
+import glob, json, os
 
 TRUSTED_COMMON = [
     "Coq 8.16.1 kernel (coqc, full .vo build; vm_compute used for finite enumerations and cases.v; no native_compute)",
     "axioms: none (Print Assumptions = 'Closed under the global context' for every property theorem, parsed on every run)",
-    "hand-written Gallina model of the Rust glue; tied to /repo by the behavioural correspondence (pvh: real API vs extracted model on the same inputs) run on every check",
-    "Coq extraction to OCaml with ExtrOcamlBasic only (Extract Inductive bool/option/list/prod/unit/sumbool; no Extract Constant), ocaml/driver.ml, cross-checked against in-kernel vm_compute on a sample of every batch (cases.v)",
+    "hand-written Gallina model of the Rust glue; tied to /repo by the behavioural correspondence (real API vs extracted model on the same inputs) run on every check",
+    "Coq extraction to OCaml with ExtrOcamlBasic only (Extract Inductive bool/option/list/prod/unit/sumbool; no Extract Constant), ocaml/*.ml driver, cross-checked against in-kernel vm_compute on a sample of every batch (cases.v)",
     "Rust harness /verif/harness (generators, canonicaliser, direct predicates), rustc/cargo 1.95",
 ]
 
-PROPS = {
-    "C09": {
-        "coq": "C09.v",
-        "harness": "c09",
-        "gen": ["headers"],
-        "design_ref": "DESIGN.md §8 C09",
-        "technique": "Rocq proof (base64 decode∘encode = id, canonical form, text types both directions, no panic) + exhaustive/sampled model/implementation correspondence",
-        "level_text": "Machine-checked for all byte strings: decode_vec (encode bs) = Ok bs; decode_vec s = Ok bs -> encode bs = s (so padding, foreign alphabet, whitespace, non-canonical trailing bits, length = 1 mod 4 are rejected); the 6-bit alphabet equals RFC 4648 §5 (256-case sweep); parse∘print and print∘parse for key text / wrapped / sealed keys, 33-byte key ids and tokens (only alias: one trailing '.'); no parser panics. The model mirrors base64.rs function by function (i16 masks included) and is compared with the real FromStr/Display/serde of all 17 text types x 6 backends.",
-        "level_note": "Trusted: Coq kernel; the model's faithfulness rests on the correspondence: exhaustive over all strings of <=2 characters (131-character set incl. multi-byte) and 3-character strings over alphabet+specials, every character at the last two positions of every tail length, plus canonical encodings and mutations through every text type; error kinds compared. serde clause is decided by the correspondence only (collect_str / visit_str are serde's). Key<V,K> re-encoding (PEM->DER) is C08's subject.",
-        "trusted": [],
-    },
-    "C10": {
-        "coq": "C10.v",
-        "harness": "c10",
-        "gen": ["headers"],
-        "design_ref": "DESIGN.md §8 C10",
-        "technique": "Rocq proof over the header table regenerated from source (constants = spec, prefix-freeness by vm_compute, general cross-rejection lemma) + exhaustive 102x102 parser cross product",
-        "level_text": "The header constants are re-read from /repo on every run (translator) and proved equal to the PASETO/PASERK constants; all 56 full prefixes end in '.' and are pairwise prefix-incomparable (vm_compute over the regenerated table); general theorem: a string accepted under one prefix is rejected with the format error by every parser stripping a different prefix. Every ordered pair of the 102 real parsers is exercised.",
-        "level_note": "Trusted: Coq kernel, tools/extract_facts.py (regex/brace reader of `impl Version/KeyType/SealingKey` const items and of the header constants named in each Display/FromStr; failure to extract is reported as a broken tie). Key-length and header-rewrite clauses are decided with C08 / C06 and re-stated there.",
-        "trusted": ["translator tools/extract_facts.py (headers inventory)"],
-    },
-    "C11": {
-        "coq": "C11.v",
-        "harness": "c11",
-        "gen": [],
-        "design_ref": "DESIGN.md §8 C11",
-        "technique": "Rocq proof (iff-characterisation of every built-in validator and combinator; pipeline theorem) + model/implementation correspondence on dynamically built validator expressions",
-        "level_text": "Machine-checked: unseal returns claims only if validate accepted exactly those claims and otherwise returns the validator's error; Time / TimeWithLeeway accept iff (no exp or exp >= now - leeway) and (no nbf or nbf <= now + leeway) for all representable now±leeway; HasExpiry, ForSubject, FromIssuer, ForAudience, NoValidation, and_then, slices, Vec, Box/Rc/Arc, map are exact. The model is compared with the real validators (Box<dyn Validate> built from every combinator) and with the statement's inequalities written directly in the harness; the pipeline runs on all six backends.",
-        "level_note": "Trusted: Coq kernel; jiff's Timestamp ordering and checked arithmetic (modelled as Z with the MIN/MAX range pinned against jiff on every run); the projection used with map is one of three fixed pure functions (identity, drop exp, swap iss/sub).",
-        "trusted": ["jiff::Timestamp comparison and ±Duration (modelled as Z, range constants pinned at run time)"],
-    },
-    "C15": {
-        "coq": "C15.v",
-        "harness": "c15",
-        "gen": [],
-        "design_ref": "DESIGN.md §8 C15",
-        "technique": "Rocq proof (closed form, injectivity via total decoder, prefix-freeness, streaming) + model/implementation correspondence",
-        "level_text": "Machine-checked theorems over all piece lists and fragmentations: pae = spec closed form on concatenated fragments, injective and prefix-free for lengths < 2^64, streaming writers see the same bytes. The model is tied to pre_auth_encode::<N> (N=0..8) by differential runs on every check.",
-        "level_note": "Trusted: Coq kernel; hand-written model of pae.rs validated against the real function on 10^4 (quick) / 2*10^5 (thorough) structured cases incl. an exhaustive small-shape enumeration; backend digest/MAC adapters are covered through whole-token bit-exactness (C03), not here.",
-        "trusted": [],
-    },
-}
+_D = os.path.join(os.path.dirname(os.path.abspath(__file__)), "props.d")
+PROPS = {}
+for _p in sorted(glob.glob(os.path.join(_D, "C*.json"))):
+    PROPS[os.path.basename(_p)[:-5]] = json.load(open(_p, encoding="utf-8"))
 
 ORDER = ["C%02d" % i for i in range(1, 20)]
